@@ -75,6 +75,7 @@ FIXED = [
  ("C18", "c18:*:error-instead-of-absent:* (default fields)", "derived readers treat an entry that refers to a missing object like an absent entry", "a field with a default (/Rotate 106 0 R, FontDescriptor /Leading 0 0 R, LZWFlateParams /Predictor 60 0 R ...) failed with FromPrimitive in strict and tolerant mode instead of taking the default; a required field reported the bare missing-object error instead of MissingEntry naming the field"),
  ("C18", "c18:Font*:Encoding|ToUnicode:*:error-instead-of-absent", "a font whose /Encoding or /ToUnicode refers to a missing object", "Font with /Encoding 0 0 R or /ToUnicode 60 0 R failed to load (hand-written reader passed FreeObject / NullRef on)"),
  ("C18", "c18:NumberTree*|NameDictionary|Encoding|AppearanceStreamEntry:*:error-instead-of-absent", "name trees, number trees, encodings and appearance dictionaries read an entry", "NumberTree /Limits 0 0 R or /Kids 60 0 R, NameTree /Names 0 0 R, Encoding /Differences 0 0 R, appearance dictionary << /On 0 0 R >> made the whole object unreadable"),
+ ("C13", "c13:*-cached:deadlock", "threads that enter a cycle of references at different objects", "two page-tree nodes naming each other as /Parent (objects 4 and 5), thread A get::<PagesNode>(4), thread B get::<PagesNode>(5), object cache on, A preempted after its guard push: both threads sleep in the cache's condition variable for ever (found once the concurrent run started with cold caches)"),
 ]
 OPEN = [
  ("C20", "c20:resource-missing:ColorSpace", "an imported page whose content names a colour space resource (/CS1 cs) arrives without /ColorSpace: deep_clone_op copies only ExtGState, Font and XObject resources; a repair needs writers for most ColorSpace variants (ColorSpace::to_primitive is unimplemented!() except for three), so it is recorded"),
